@@ -1,8 +1,10 @@
 """C04 — step start times obey the documented rate, phase, delay and scheduling law."""
 from pyvc.driver import check_property
-from . import async_node, async_conn, async_misc
+from . import async_node, async_conn, async_misc, c16
 
-UNITS = [u for u in async_node.UNITS + async_conn.UNITS + async_misc.UNITS if "C04" in u.props]
+# the law's `phase` is BaseNode.phase: its Bellman equation and its independence of the call history (a delay changed upstream between two episodes is what the next
+# episode is scheduled with) belong to C04 as much as to C16
+UNITS = [u for u in async_node.UNITS + async_conn.UNITS + async_misc.UNITS + c16.UNITS if "C04" in u.props]
 
 
 def check(tier, seed):
